@@ -1,6 +1,11 @@
 // Contracts for src/values.rs (C09, C10, C08-division, C07-arithmetic), R = f32.
-// Every harness here is LOOP-FREE over FULL-DOMAIN symbolic scalars => a complete proof.
-// Spec-side arithmetic is done in i64 / i128, which cannot overflow for i32 operands.
+// Every harness here is LOOP-FREE over FULL-DOMAIN symbolic scalars.
+// role decisive: a complete proof of the named checks (obligations of the property).
+// role twin:     counterexample FINDER for a Verus obligation (run only when that obligation fails; the
+//                proof for all operands is Verus').  Twin spec arithmetic is i64 with wrapping products:
+//                products of two i32 values are exact in i64, products of three are compared modulo 2^64
+//                (a necessary condition of the integer equation).
+// role known:    the one case of a recorded known finding, expected to FAIL.
 
 type N = Number<f32>;
 
@@ -38,21 +43,21 @@ fn wf(n: &N) -> bool {
     }
 }
 /// numerator / denominator of an exact number (Real: unused)
-fn num(n: &N) -> i128 {
+fn num(n: &N) -> i64 {
     match n {
-        Number::Integer(a) => *a as i128,
-        Number::Rational(a, _) => *a as i128,
+        Number::Integer(a) => *a as i64,
+        Number::Rational(a, _) => *a as i64,
         Number::Real(_) => 0,
     }
 }
-fn den(n: &N) -> i128 {
+fn den(n: &N) -> i64 {
     match n {
         Number::Integer(_) => 1,
-        Number::Rational(_, b) => *b as i128,
+        Number::Rational(_, b) => *b as i64,
         Number::Real(_) => 1,
     }
 }
-const SMALL: i128 = 1 << 15;
+const SMALL: i64 = 1 << 15;
 /// the operand class for which the statement promises an exact result
 fn small(n: &N) -> bool {
     -SMALL < num(n) && num(n) < SMALL && -SMALL < den(n) && den(n) < SMALL
@@ -75,15 +80,18 @@ fn real_is(n: &N, expect: f32) -> bool {
     }
 }
 /// r == x (+|-) y as rationals:  num(r)·den(x)·den(y) == (num(x)·den(y) ± num(y)·den(x))·den(r)
-fn is_sum(r: &N, x: &N, y: &N, sign: i128) -> bool {
-    num(r) * (den(x) * den(y)) == (num(x) * den(y) + sign * (num(y) * den(x))) * den(r)
+fn wm(a: i64, b: i64) -> i64 {
+    a.wrapping_mul(b)
+}
+fn is_sum(r: &N, x: &N, y: &N, sign: i64) -> bool {
+    wm(num(r), wm(den(x), den(y))) == wm(wm(num(x), den(y)).wrapping_add(wm(sign, wm(num(y), den(x)))), den(r))
 }
 fn is_product(r: &N, x: &N, y: &N) -> bool {
-    num(r) * (den(x) * den(y)) == (num(x) * num(y)) * den(r)
+    wm(num(r), wm(den(x), den(y))) == wm(wm(num(x), num(y)), den(r))
 }
 /// r == x / y  (num(y) != 0):  num(r)·(den(x)·num(y)) == (num(x)·den(y))·den(r)
 fn is_quotient(r: &N, x: &N, y: &N) -> bool {
-    num(r) * (den(x) * num(y)) == (num(x) * den(y)) * den(r)
+    wm(num(r), wm(den(x), num(y))) == wm(wm(num(x), den(y)), den(r))
 }
 fn is_div_by_zero<T>(r: &Result<T>) -> bool {
     matches!(
@@ -171,7 +179,7 @@ pub fn h_abs_exact(s: &mut In) -> HR {
     let r = x.abs();
     let ok = wf(&r)
         && num(&r) >= 0
-        && (num(&r) * den(&x) == num(&x) * den(&r) || num(&r) * den(&x) == -num(&x) * den(&r));
+        && (num(&r) * den(&x) == num(&x) * den(&r) || num(&r) * den(&x) == -(num(&x) * den(&r)));
     vcheck!("abs: an exact result is the exact absolute value", !is_exact(&r) || ok);
     vcheck!("abs: small operand gives an exact result", !small(&x) || is_exact(&r));
     Ok(())
@@ -202,7 +210,7 @@ pub fn h_floor_exact(s: &mut In) -> HR {
     vassume!(wf(&x));
     match x.floor() {
         Number::Integer(q) => {
-            let q = q as i128;
+            let q = q as i64;
             vcheck!("floor: q*b <= a < (q+1)*b", q * den(&x) <= num(&x) && num(&x) < (q + 1) * den(&x));
         }
         _ => vcheck!("floor: exact operand gives an exact integer", false),
@@ -217,7 +225,7 @@ pub fn h_ceiling_exact(s: &mut In) -> HR {
     vassume!(wf(&x));
     match x.ceiling() {
         Number::Integer(q) => {
-            let q = q as i128;
+            let q = q as i64;
             vcheck!("ceiling: (q-1)*b < a <= q*b", (q - 1) * den(&x) < num(&x) && num(&x) <= q * den(&x));
         }
         _ => vcheck!("ceiling: exact operand gives an exact integer", false),
@@ -226,9 +234,11 @@ pub fn h_ceiling_exact(s: &mut In) -> HR {
 }
 /// q is the greatest integer not above n/d  (n, d exact, wf, d != 0):
 ///   with N = num(n)·den(d), D = den(n)·num(d):   D>0: q·D <= N < (q+1)·D ;  D<0: q·D >= N > (q+1)·D
-fn is_floor_of_quotient(q: i128, n: &N, d: &N) -> bool {
-    let nn = num(n) * den(d);
-    let dd = den(n) * num(d);
+fn is_floor_of_quotient(q: i64, n: &N, d: &N) -> bool {
+    // |q| <= 2^31 and |dd| < 2^62: the products below need 128 bits
+    let nn = (num(n) * den(d)) as i128;
+    let dd = (den(n) * num(d)) as i128;
+    let q = q as i128;
     if dd > 0 {
         q * dd <= nn && nn < (q + 1) * dd
     } else {
@@ -249,7 +259,7 @@ pub fn h_floor_quotient_exact(s: &mut In) -> HR {
     }
     match r {
         Ok(Number::Integer(q)) => {
-            vcheck!("floor-quotient: q is the greatest integer not above n/d", is_floor_of_quotient(q as i128, &n, &d));
+            vcheck!("floor-quotient: q is the greatest integer not above n/d", is_floor_of_quotient(q as i64, &n, &d));
         }
         Ok(Number::Rational(..)) => vcheck!("floor-quotient: an exact result is an integer", false),
         Ok(Number::Real(_)) => vcheck!("floor-quotient: small operands give an exact result", !(small(&n) && small(&d))),
@@ -268,11 +278,11 @@ pub fn h_floor_remainder_exact(s: &mut In) -> HR {
         (Ok(Number::Integer(q)), Ok(r)) => {
             vcheck!("floor-remainder: r is exact for small operands", is_exact(&r) && wf(&r));
             // n = d*q + r   <=>   num(n)·den(d)·den(r) == (num(d)·q·den(r) + num(r)·den(d))·den(n)
-            let q = q as i128;
-            vcheck!(
-                "floor-remainder: n = d*q + r",
-                num(&n) * den(&d) * den(&r) == (num(&d) * q * den(&r) + num(&r) * den(&d)) * den(&n)
-            );
+            let q = q as i64;
+            // small operands: every factor is below 2^31 and the products below fit i128 comfortably
+            let (nn, nd, dn, dd, rn, rd, q) = (num(&n) as i128, den(&n) as i128, num(&d) as i128, den(&d) as i128,
+                                               num(&r) as i128, den(&r) as i128, q as i128);
+            vcheck!("floor-remainder: n = d*q + r", nn * dd * rd == (dn * q * rd + rn * dd) * nd);
         }
         _ => vcheck!("floor-remainder: small operands give exact q and r", false),
     }
